@@ -26,7 +26,10 @@ type answer struct {
 }
 
 // scriptResolver implements maddy's dns.Resolver; only TXT is scripted. Names
-// are matched case-insensitively and without the trailing dot, as DNS does.
+// are matched case-insensitively (ASCII letters) and without the trailing dot,
+// as DNS does - and like DNS it knows nothing about U-labels: the zones are
+// keyed by A-labels, a query name with non-ASCII octets is simply another name
+// (NXDOMAIN; Go's own resolver refuses such a name with the same "no such host").
 type scriptResolver struct {
 	mu      sync.Mutex
 	zones   map[string]answer
@@ -164,7 +167,7 @@ func buildZones(pt *point, froms []string) map[string]answer {
 	z := map[string]answer{}
 	rec := recordText(pt.Rec)
 	for _, from := range froms {
-		lf := lowerASCII(from)
+		lf := canon(from) // DNS holds the record under the A-label name
 		org, ok := orgOf[lf]
 		if !ok {
 			panic("c07: From domain outside the fixed set: " + from)
@@ -421,30 +424,63 @@ func caseVariant(p *prng.R, d string) string {
 	}
 }
 
-func pickDomain(p *prng.R, mixCase bool) string {
-	d := prng.Pick(p, allDomains)
-	if mixCase && p.Chance(1, 4) {
-		d = caseVariant(p, d)
-	}
-	return d
+// domGen is the source of domains of a sampled group: the plain one draws
+// from allDomains in lower or mixed case (draw sequence unchanged since round
+// 1); the spelling one draws from spellDomains and writes every domain in one
+// of the spellings of model_test.go (A-label lower / upper case, U-label,
+// U-label with upper-case ASCII letters, NFD; identifiers also with a trailing
+// dot - a From address with a trailing dot does not parse).
+type domGen struct {
+	domains []string
+	spell   bool
 }
 
-// relatedDomain biases authenticated domains towards the interesting
+var plainDomains = &domGen{domains: allDomains}
+
+var spellDomains = &domGen{spell: true, domains: []string{
+	"example.org", "mail.example.org", "xn--bcher-kva.example.org", "xn--bcher-kva.example.org", "mail.xn--bcher-kva.example.org",
+	"xn--mnchen-3ya.example.org", "bucher.example.org", "xn--bcher-kva.org", "mail.xn--bcher-kva.org", "org", "example.com", "victim.co.uk",
+}}
+
+func (g *domGen) variant(p *prng.R, d string, mixCase, identifier bool) string {
+	if !g.spell {
+		if mixCase && p.Chance(1, 4) {
+			d = caseVariant(p, d)
+		}
+		return d
+	}
+	c := canon(d)
+	kind := p.Weighted([]int{3, 1, 3, 1, 2})
+	s := spell(c, kind, identifier && p.Chance(1, 4))
+	if mixCase && isASCII(s) && p.Chance(1, 4) {
+		s = caseVariant(p, s)
+	}
+	return s
+}
+
+func (g *domGen) pick(p *prng.R, mixCase bool) string {
+	return g.variant(p, prng.Pick(p, g.domains), mixCase, false)
+}
+
+// related biases authenticated domains towards the interesting
 // neighbourhood of the From domain.
-func relatedDomain(p *prng.R, from string, mixCase bool) string {
-	lf := lowerASCII(from)
+func (g *domGen) related(p *prng.R, from string, mixCase bool) string {
+	lf := canon(from)
 	var cands []string
-	for _, d := range allDomains {
+	for _, d := range g.domains {
 		if orgOf[d] == orgOf[lf] || suffixOf[d] == suffixOf[lf] || d == suffixOf[lf] {
 			cands = append(cands, d)
 		}
 	}
 	if len(cands) == 0 || p.Chance(1, 5) {
-		return pickDomain(p, mixCase)
+		return g.variant(p, prng.Pick(p, g.domains), mixCase, true)
 	}
 	d := prng.Pick(p, cands)
 	if p.Chance(1, 3) {
 		d = from
+	}
+	if g.spell {
+		return g.variant(p, d, mixCase, true)
 	}
 	if mixCase && p.Chance(1, 4) {
 		d = caseVariant(p, d)
@@ -456,10 +492,10 @@ var dkimValuesSample = []string{"pass", "pass", "pass", "fail", "none", "neutral
 var spfValuesSample = []string{"pass", "pass", "pass", "fail", "none", "neutral", "softfail", "temperror", "temperror", "permerror"}
 var modesSample = []string{"r", "s", ""}
 
-func randomPoint(p *prng.R, judgeJunk bool) *point {
+func randomPoint(p *prng.R, judgeJunk bool, g *domGen) *point {
 	pt := &point{}
 	mix := p.Chance(1, 2)
-	from := pickDomain(p, mix)
+	from := g.pick(p, mix)
 	pos := p.Intn(3)
 	switch w := p.Intn(20); {
 	case w < 14:
@@ -474,7 +510,7 @@ func randomPoint(p *prng.R, judgeJunk bool) *point {
 		pt.From = from // only used to aim the identifiers
 	case w < 19:
 		pt.Shape = ShSeveral
-		d2 := relatedDomain(p, from, mix)
+		d2 := strings.TrimSuffix(g.related(p, from, mix), ".")
 		k, h := severalHeader(p.Intn(len(severalKinds)), from, d2)
 		pt.ShapeKind, pt.Header = k, wrapHeader(h, pos)
 		pt.From = from
@@ -490,10 +526,10 @@ func randomPoint(p *prng.R, judgeJunk bool) *point {
 		pt.DKIM = []dkimRes{{Value: "none"}}
 	} else {
 		for i := 0; i < n; i++ {
-			pt.DKIM = append(pt.DKIM, dkimRes{Value: prng.Pick(p, dkimValuesSample), Domain: relatedDomain(p, from, mix)})
+			pt.DKIM = append(pt.DKIM, dkimRes{Value: prng.Pick(p, dkimValuesSample), Domain: g.related(p, from, mix)})
 		}
 	}
-	pt.SPF = spfRes{Value: prng.Pick(p, spfValuesSample), Identity: relatedDomain(p, from, mix), Rep: p.Weighted([]int{2, 2, 4})}
+	pt.SPF = spfRes{Value: prng.Pick(p, spfValuesSample), Identity: g.related(p, from, mix), Rep: p.Weighted([]int{2, 2, 4})}
 	if pt.SPF.Rep == 2 {
 		if p.Bool() {
 			pt.SPF.Decoy = from
